@@ -31,7 +31,7 @@ Section Props.
       t_issuer t = (match iss with Some (n, _) => n | None => t_subject t end).
   Proof.
     unfold gen_tcert. intros H.
-    destruct (cc_serial c <? 0)%Z; [discriminate|].
+    destruct ((cc_serial c <? 0)%Z || (9223372036854775807 <? cc_serial c)%Z); [discriminate|].
     destruct (parse_rdn (cc_subject c)) as [subj|]; [|discriminate].
     destruct (to_time_struct _ _ _) as [val|]; [|discriminate].
     destruct (sig_oid _) as [[so rsa]|]; [|discriminate].
@@ -76,7 +76,7 @@ Section Props.
     (forall s, m_sigvalue (cc_manip c) = s -> s <> [] -> raw_of fx s = Some (t_sig t)).
   Proof.
     unfold gen_tcert. intros H.
-    destruct (cc_serial c <? 0)%Z eqn:Esn; [discriminate|].
+    destruct ((cc_serial c <? 0)%Z || (9223372036854775807 <? cc_serial c)%Z) eqn:Esn; [discriminate|].
     destruct (parse_rdn (cc_subject c)) as [subj|] eqn:Es; [|discriminate].
     destruct (to_time_struct _ _ _) as [val|] eqn:Ev; [|discriminate].
     destruct (sig_oid _) as [[so rsa]|] eqn:Eg; [|discriminate].
